@@ -113,7 +113,8 @@ def checkException (f : Flags) (excGot want : Str) : Option Bool :=
   | some excWant =>
     if checkOutput f excGot excWant then some true
     else if f.ignDetail then
-      some (checkOutput f (stripExceptionDetails excGot) (stripExceptionDetails excWant))
+      let w1 := stripExceptionDetails excWant
+      some (!w1.isEmpty && checkOutput f (stripExceptionDetails excGot) w1)
     else some false
 
 /-! ## got vs want -/
